@@ -46,6 +46,27 @@ func (ex *Exec) call(st *State, in ssa.Instruction, c *ssa.CallCommon) (Value, b
 			}
 		} else {
 			sig := c.Signature()
+			// a call through a package-level function variable may have a (trusted) contract: `ext <pkg>.<var>(params)`,
+			// an assumption about whatever function is installed in the variable
+			if ld, isLoad := c.Value.(*ssa.UnOp); isLoad {
+				if g, isGlobal := ld.X.(*ssa.Global); isGlobal {
+					for _, key := range []string{g.Pkg.Pkg.Path() + "." + g.Name(), shortPkg(g.Pkg.Pkg.Path()) + "." + g.Name()} {
+						if spec, ok := ex.db.ext[key]; ok {
+							args := make([]TV, len(c.Args))
+							for i, a := range c.Args {
+								args[i] = TV{st.val(a), a.Type()}
+							}
+							pn := spec.Params
+							if len(pn) == 0 {
+								for i := 0; i < sig.Params().Len(); i++ {
+									pn = append(pn, sig.Params().At(i).Name())
+								}
+							}
+							return ex.applyContract(st, in, ord, key, spec, ex.db.extCF[key], pn, args, sig)
+						}
+					}
+				}
+			}
 			return ex.unknownCall(st, in, "function value", sig), false
 		}
 	}
